@@ -42,6 +42,7 @@ def run(ctx):
                                                     "transform_changed_the_model"),
                       nontrivial=lambda j: len(j["history"]) >= 3)
     pools(ctx, jobs, rng)
+    far_mate(ctx)
     ctx.exhaustive = False
     return ctx.finish(
         level="model_checking",
@@ -84,6 +85,22 @@ def pools(ctx, jobs, rng):
         else:
             ctx.traces += 1
             ctx.count("pool_size_pairs_equal")
+
+
+def far_mate(ctx):
+    """an outlier item in the batch (support ~3000 cost units away, a valid distribution) must not change the rows of the others"""
+    from .. import adapters_lot
+
+    def call(op, b):
+        return {"op": op, "b": b, "knob": 0, "expect_ok": True}
+    jobs = []
+    for name, cls in sorted(adapters_lot.FAR.items()):
+        for ci in range(len(cls.configs)):
+            jobs.append(dict(adapter=name, cfg=ci, seed=ctx.seed, history=[call("fit", [1, 2, 3, 4, 5, 6]), call("transform", [1, 2]),
+                                                                             call("transform", [1, 2, 9]), call("transform", [2, 1])]))
+    protocol.run_jobs(ctx, jobs, "far_batch_mate", min_chunk=2,
+                      ignore=("arguments_modified", "constructor_parameter_objects_modified", "temporary_files_left_behind",
+                              "same_seed_same_model", "fit_returns_self", "transform_changed_the_model"))
 
 
 def _has_lot():
